@@ -51,8 +51,10 @@ open OlVerif.Sem in
     lambdas, comprehensions, ... - `W.eval`), any meaning of the primitive operations (binding a
     global name, attribute and item access, the in-place operators) and of the truth test of user
     values (`W.truthy`, which may run user code and may fail); a non-empty list is true, and taking
-    the truth value of an object again right away repeats the answer and changes nothing (`Lawful`).  For a module made of expression statements, `pass`, `global`, assignments
-    with any number of name / attribute / subscript targets, augmented assignments on such targets
+    the truth value of an object again right away repeats the answer and changes nothing (`Lawful`); indexing a tuple built from
+    items gives the items (`LawfulSeq`).  For a module made of expression statements, `pass`, `global`, assignments
+    with any number of targets - names, attributes, subscripts, tuple / list patterns of such targets
+    without a starred item, nested to any depth -, augmented assignments on name / attribute / subscript targets
     and `if` / `elif` / `else` over such statements at any nesting, whose expressions do not mention
     `__ol_` names: whenever the script runs from user state `u` to `u'`, the converted expression
     evaluates from `u` to `u'` - under both wrappers and both if-styles, with the helper variables it
@@ -60,10 +62,10 @@ open OlVerif.Sem in
     value is never taken (it may be undefined), and that of a condition only where the script takes
     it, possibly again right away (under `short_circuit`; KF-D61b is the world where that shows).  Loops are C05's theorem; functions,
     classes and imports are not covered at value level. -/
-theorem module_straightline_semantics {U V : Type} (W : World U V) (hW : Lawful W) (cfg : Cfg) (root : SymScope)
+theorem module_straightline_semantics {U V : Type} (W : World U V) (hW : Lawful W) (hS : LawfulSeq W) (cfg : Cfg) (root : SymScope)
     (body : List Stmt) (hs : ∀ s ∈ body, SimpleS s) (e : Expr) (h : lowerFull cfg root body = .ok e) {u u' : U}
     (hx : ExecB W body u u') : ∃ v t', Ev W e u [] v u' t' :=
-  module_sim W hW cfg root body hs e h hx
+  module_sim W hW hS cfg root body hs e h hx
 
 open OlVerif.Sem in
 /-- the hypothesis is decidable: the correspondence check evaluates it on real programs -/
@@ -83,40 +85,72 @@ theorem module_level_expressions_unchanged (n : Nsp) (hn : n.kind = .module) (b 
 
 namespace Ex
 open OlVerif.Sem
-/-- non-vacuity: integers, globals as an association list, `+=` on integers, C-like truth -/
-def W : World (List (String × Int)) Int where
+/-- non-vacuity: integers and sequences, globals as an association list, `+=` on integers, C-like truth -/
+inductive PV
+  | int (n : Int)
+  | seq (vs : List PV)
+
+def evalNames (u : List (String × PV)) : List Expr → Option (List PV)
+  | [] => some []
+  | .name x :: es => do
+      let v ← u.lookup x
+      let vs ← evalNames u es
+      pure (v :: vs)
+  | _ => none
+
+def W : World (List (String × PV)) PV where
   eval := fun e u => match e with
     | .name x => (u.lookup x).map (·, u)
+    | .tuple es => (evalNames u es).map (PV.seq ·, u)
     | _ => none
-  const := fun c => match c with | .int n => n | _ => 0
+  const := fun c => match c with | .int n => .int n | _ => .int 0
   store := fun x v u => (x, v) :: u
   getattr := fun _ _ _ => none
   setattr := fun _ _ _ _ => none
-  getitem := fun _ _ _ => none
+  getitem := fun o i u => match o, i with
+    | .seq vs, .int k => if 0 ≤ k then (vs[k.toNat]?).map (·, u) else none
+    | _, _ => none
   setitem := fun _ _ _ _ => none
-  iop := fun op a b u => match op with | .add => some (a + b, u) | _ => none
-  listOf := fun vs => vs.length
-  noneV := 0
-  runner := 0
-  truthy := fun v u => some (decide (v ≠ 0), u)
+  iop := fun op a b u => match op, a, b with | .add, .int x, .int y => some (.int (x + y), u) | _, _, _ => none
+  listOf := .seq
+  noneV := .int 0
+  runner := .int 0
+  truthy := fun v u => match v with | .int n => some (decide (n ≠ 0), u) | .seq vs => some (!vs.isEmpty, u)
+  iter := fun v u => match v with | .seq vs => some (vs, u) | _ => none
+  tupleOf := .seq
+  getslice := fun _ _ _ _ _ => none
 
 theorem W_lawful : Lawful W where
-  list := by intro v vs u; simp [W]; omega
-  retest := by intro v u u' b h; simp only [W, Option.some.injEq, Prod.mk.injEq] at h ⊢; exact ⟨h.1, trivial⟩
+  list := by intro v vs u; simp [W]
+  retest := by
+    intro v u u' b h
+    cases v <;> simp only [W, Option.some.injEq, Prod.mk.injEq] at h ⊢ <;> exact ⟨h.1, trivial⟩
 
-/-- `x = 1` / `if x: x += 2` / `else: pass` -/
+theorem W_lawfulSeq : LawfulSeq W where
+  index := by
+    intro items i v u h
+    simp [W, h]
+
+/-- `x = 1` / `a, b = x, x` / `if a: x += 2` / `else: pass` -/
 def prog : List Stmt :=
-  [.assign [.name "x"] (.const (.int 1)), .if_ (.name "x") [.augAssign (.name "x") .add (.const (.int 2))] [.pass_]]
+  [.assign [.name "x"] (.const (.int 1)),
+   .assign [.tuple [.name "a", .name "b"]] (.tuple [.name "x", .name "x"]),
+   .if_ (.name "a") [.augAssign (.name "x") .add (.const (.int 2))] [.pass_]]
 
 theorem prog_simple : ∀ s ∈ prog, SimpleS s := fragment_decidable_sound prog (by decide)
 
-theorem prog_runs : ExecB W prog [] [("x", 3), ("x", 1)] :=
-  .cons (.assign _ _ (.const _ _ _) (.cons (.name "x" _ _ (by decide)) (.nil _ _)))
-    (.cons (.ifTrue _ _ _ (.user _ _ (by decide) rfl) rfl
-      (.cons (.augName "x" .add _ (by decide) (.user _ _ (by decide) rfl) (.const _ _ _) rfl) (.nil _))) (.nil _))
+def final : List (String × PV) := [("x", .int 3), ("b", .int 1), ("a", .int 1), ("x", .int 1)]
 
-example : ∃ e, lowerFull { ifStyle := .shortCircuit } default prog = .ok e ∧ ∃ v t', Ev W e [] [] v [("x", 3), ("x", 1)] t' :=
-  ⟨_, rfl, module_straightline_semantics W W_lawful { ifStyle := .shortCircuit } default prog prog_simple _ rfl prog_runs⟩
+theorem prog_runs : ExecB W prog [] final :=
+  .cons (.assign _ _ (.const _ _ _) (.cons (.name "x" _ _ (by decide)) (.nil _ _)))
+    (.cons (.assign _ _ (.user _ _ (by decide) rfl)
+        (.cons (.tuple _ (items := [.int 1, .int 1]) rfl rfl
+          (.cons (.name "a" _ _ (by decide)) (.cons (.name "b" _ _ (by decide)) (.nil _)))) (.nil _ _)))
+      (.cons (.ifTrue _ _ _ (.user _ _ (by decide) rfl) rfl
+        (.cons (.augName "x" .add _ (by decide) (.user _ _ (by decide) rfl) (.const _ _ _) rfl) (.nil _))) (.nil _)))
+
+example : ∃ e, lowerFull { ifStyle := .shortCircuit } default prog = .ok e ∧ ∃ v t', Ev W e [] [] v final t' :=
+  ⟨_, rfl, module_straightline_semantics W W_lawful W_lawfulSeq { ifStyle := .shortCircuit } default prog prog_simple _ rfl prog_runs⟩
 end Ex
 
 end OlVerif.C01
